@@ -104,13 +104,67 @@ RECORD_NO_INLINE = (B + '.collect_data_block', B + '._make_header', B + '._heade
                     B + '._header_add_from_input_header', B + '._header_populate_configuration')
 
 
+def _root_base(t):
+    """the container a (chain of) subscript stores goes into: strip store(...) wrappers"""
+    a = t.single_atom()
+    while a is not None and a.kind == 'store':
+        t = a.args[0]
+        a = t.single_atom()
+    return t
+
+
+def _match_groups(ctx, rule, title, fi, what_label, A, B, comps, describe):
+    """Compare two collections of events irrespective of the interleaving of INDEPENDENT events.
+    comps(e) -> [(label, term)].  Pass 1 pairs events whose components are all EQUAL (any position);
+    the leftovers are paired by position and each component is reported through ctx.formula (so a
+    semantic change is a VIOLATION naming the construct, an opaque difference is UNDECIDED); an
+    event without counterpart is a VIOLATION."""
+    from vstatic import terms as T
+    ca = [(e, comps(e)) for e in A]
+    cb = [(e, comps(e)) for e in B]
+    used = set()
+    left = []
+    for ea, xa in ca:
+        hit = None
+        for k, (eb, xb) in enumerate(cb):
+            if k in used or len(xa) != len(xb):
+                continue
+            if all(T.compare(u[1], v[1])[0] == T.EQUAL for u, v in zip(xa, xb)):
+                hit = k
+                break
+        if hit is None:
+            left.append((ea, xa))
+        else:
+            used.add(hit)
+            ctx.ob(rule, f'{title}: {what_label} `{describe(ea)}` has an equal counterpart in the reference definition', fi, True,
+                   {'matched_reference': describe(cb[hit][0])}, node=ea.node, construct=describe(ea))
+    rest_b = [cb[k] for k in range(len(cb)) if k not in used]
+    for n, (ea, xa) in enumerate(left):
+        if n < len(rest_b) and len(rest_b[n][1]) == len(xa):
+            eb, xb = rest_b[n]
+            for (la, ta), (lb, tb) in zip(xa, xb):
+                ctx.formula(rule, f'{title}: {what_label} {la} == reference', fi, ta, tb, node=ea.node,
+                            construct=describe(ea) + f' [{la}]')
+        else:
+            ctx.ob(rule, f'{title}: {what_label} `{describe(ea)}` exists in the reference definition', fi, False,
+                   {'code': [describe(e) for e, _ in ca], 'reference': [describe(e) for e, _ in cb]}, node=ea.node,
+                   construct=describe(ea) + ' [extra]')
+    for eb, xb in rest_b[len(left):]:
+        ctx.ob(rule, f'{title}: the reference {what_label} `{describe(eb)}` is performed by the code', fi, False,
+               {'code': [describe(e) for e, _ in ca], 'reference': [describe(e) for e, _ in cb]}, node=fi.node,
+               construct=f'missing {what_label}: ' + describe(eb))
+
+
 def agree_ref(ctx, fi, ref_src, title, what=('return', 'heap', 'substores'), rule='AGREE', skip_attrs=(), **runkw):
     """Compare a function with a reference transcription of the property's definition evaluated by
-    the same interpreter: return value, final values of self attributes, and subscript stores
-    (buffer fills) pairwise in program order."""
+    the same interpreter: return value, final values of self attributes, attribute stores, calls,
+    buffer stores, loop-carried updates, raise/assert guards.  Events are matched as multisets (the
+    order of independent statements is free); values are compared in normal form."""
     from vstatic import terms as T
     r, I = ctx.run(fi, **dict(runkw))
     rr, IR = ctx.run_ref(fi, ref_src, **dict(runkw))
+    own = fi.short
+    txt = lambda e: e.text()[:90]
     if 'return' in what:
         ctx.formula(rule, f'{title}: returned value == reference definition', fi, r.ret, rr.ret, node=fi.node,
                     construct=f'return {fi.name}')
@@ -125,114 +179,64 @@ def agree_ref(ctx, fi, ref_src, title, what=('return', 'heap', 'substores'), rul
             ctx.formula(rule, f'{title}: self.{k[1]} at exit == reference definition', fi, a, b,
                         node=(st[-1].node if st else fi.node), construct=f'self.{k[1]} at exit')
     if 'attrstores' in what:
-        def sel(II, own):
+        def sel(II, o):
             return [e for e in II.events if e.kind == 'store' and e.data.get('target') == 'attr'
-                    and (own is None or e.func.short == own)]
-        sa, sb = sel(I, fi.short), sel(IR, None)
-        if [e.data['name'] for e in sa] != [e.data['name'] for e in sb]:
-            ctx.ob(rule, f'{title}: same sequence of attribute updates as the reference', fi, False,
-                   {'code': [e.text()[:80] for e in sa], 'reference': [e.text()[:80] for e in sb]}, node=fi.node,
-                   construct='attribute stores')
-        else:
-            for ea, eb in zip(sa, sb):
-                ctx.formula(rule, f'{title}: object updated by `{ea.data["name"]}` store == reference', fi, ea.data['base'],
-                            eb.data['base'], node=ea.node, construct=ea.text()[:80] + ' [object]')
-                ctx.formula(rule, f'{title}: value stored into .{ea.data["name"]} == reference', fi, ea.data['value'],
-                            eb.data['value'], node=ea.node, construct=ea.text()[:80] + ' [value]')
-                ctx.formula(rule, f'{title}: condition of the .{ea.data["name"]} store == reference', fi, ea.cond(), eb.cond(),
-                            node=ea.node, construct=ea.text()[:80] + ' [guard]')
+                    and (o is None or e.func.short == o)]
+        _match_groups(ctx, rule, title, fi, 'attribute update', sel(I, own), sel(IR, None),
+                      lambda e: [('object', e.data['base']), ('attribute', lift(e.data['name'])), ('value', e.data['value']),
+                                 ('guard', e.cond())], txt)
     if 'loopstores' in what:
-        def sell(II, own):
-            # only loop-carried names (accumulators / running indices): temporaries are compared through the
-            # values that reach stores, calls and returns
+        def sell(II, o):
             return [e for e in II.events if e.kind == 'store' and e.data.get('target') == 'name' and e.loops
-                    and (own is None or e.func.short == own)
+                    and (o is None or e.func.short == o)
                     and any(e.data['name'] in l.get('carried', ()) for l in e.loops)]
-        la, lb = sell(I, fi.short), sell(IR, None)
-        if len(la) != len(lb):
-            ctx.ob(rule, f'{title}: same number of loop-body assignments as the reference', fi, False,
-                   {'code': [e.text()[:80] for e in la], 'reference': [e.text()[:80] for e in lb]}, node=fi.node,
-                   construct='loop-body assignments')
-        else:
-            for ea, eb in zip(la, lb):
-                ctx.formula(rule, f'{title}: loop-body value of `{ea.data["name"]}` == reference', fi, ea.data['value'],
-                            eb.data['value'], node=ea.node, construct=ea.text()[:80] + ' [loop value]')
-            for ea, eb in zip([e for e in I.events if e.kind == 'loop' and e.func.short == fi.short],
-                              [e for e in IR.events if e.kind == 'loop']):
-                ia, ib = ea.data['info'], eb.data['info']
-                if 'trip' in ia and 'trip' in ib:
-                    ctx.formula(rule, f'{title}: trip count of the loop == reference', fi, ia['trip'], ib['trip'],
-                                node=ea.node, construct=ea.text()[:60] + ' [trip count]')
+        _match_groups(ctx, rule, title, fi, 'loop-carried update', sell(I, own), sell(IR, None),
+                      lambda e: [('value', e.data['value'])], txt)
+        def with_carried(II, o, loops):
+            ids = {l['id'] for e in sell(II, o) for l in e.loops}
+            return [e for e in loops if e.data['info']['id'] in ids]
+        la = with_carried(I, own, [e for e in I.events if e.kind == 'loop' and e.func.short == own])
+        lb = with_carried(IR, None, [e for e in IR.events if e.kind == 'loop'])
+        _match_groups(ctx, rule, title, fi, 'loop', [e for e in la if 'trip' in e.data['info']],
+                      [e for e in lb if 'trip' in e.data['info']], lambda e: [('trip count', e.data['info']['trip'])],
+                      lambda e: e.text()[:60])
     if 'calls' in what:
-        def selc(II, own):
-            return [e for e in II.events if e.kind == 'call' and (own is None or e.func.short == own)
+        def selc(II, o):
+            return [e for e in II.events if e.kind == 'call' and (o is None or e.func.short == o)
                     and (e.data.get('resolved') is not None or 'candidates' in e.data)]
-        ca, cb = selc(I, fi.short), selc(IR, None)
-        if [e.data['name'] for e in ca] != [e.data['name'] for e in cb]:
-            ctx.ob(rule, f'{title}: same sequence of method/package calls as the reference', fi, False,
-                   {'code': [e.text()[:80] for e in ca], 'reference': [e.text()[:80] for e in cb]}, node=fi.node,
-                   construct='call sequence')
-        else:
-            for ea, eb in zip(ca, cb):
-                def packed(e):
-                    extra = [e.data.get('star') if e.data.get('star') is not None else T.NONE,
-                             e.data.get('dstar') if e.data.get('dstar') is not None else T.NONE]
-                    names = T.mk_tuple([lift(k) for k, _ in sorted(e.data['kwargs'])])
-                    return T.mk_tuple(list(e.data['args']) + [names] + [v for _, v in sorted(e.data['kwargs'])] + extra)
-                aa, ab = packed(ea), packed(eb)
-                ctx.formula(rule, f'{title}: arguments of {ea.data["name"]} == reference', fi, aa, ab, node=ea.node,
-                            construct=ea.text()[:80] + ' [args]')
-                ctx.formula(rule, f'{title}: condition of the {ea.data["name"]} call == reference', fi, ea.cond(), eb.cond(),
-                            node=ea.node, construct=ea.text()[:80] + ' [guard]')
+
+        def packed(e):
+            extra = [e.data.get('star') if e.data.get('star') is not None else T.NONE,
+                     e.data.get('dstar') if e.data.get('dstar') is not None else T.NONE]
+            b = e.data.get('bound')
+            if b:
+                items = sorted(b.items())
+                return T.mk_tuple([T.mk_tuple([lift(k), v]) for k, v in items] + extra)
+            names = T.mk_tuple([lift(k) for k, _ in sorted(e.data['kwargs'])])
+            return T.mk_tuple(list(e.data['args']) + [names] + [v for _, v in sorted(e.data['kwargs'])] + extra)
+        _match_groups(ctx, rule, title, fi, 'call', selc(I, own), selc(IR, None),
+                      lambda e: [('callee', lift(e.data['name'])), ('arguments', packed(e)), ('guard', e.cond())], txt)
     if 'asserts' in what:
-        aa_ = [e for e in I.events if e.kind == 'assert' and e.func.short == fi.short]
+        aa_ = [e for e in I.events if e.kind == 'assert' and e.func.short == own]
         ab_ = [e for e in IR.events if e.kind == 'assert']
-        if len(aa_) != len(ab_):
-            ctx.ob(rule, f'{title}: same assertions as the reference', fi, False,
-                   {'code': [e.text()[:80] for e in aa_], 'reference': [e.text()[:80] for e in ab_]}, node=fi.node, construct='assert statements')
-        else:
-            for ea, eb in zip(aa_, ab_):
-                ctx.formula(rule, f'{title}: asserted condition == reference', fi, ea.data['cond'], eb.data['cond'], node=ea.node,
-                            construct=ea.text()[:80] + ' [assert]')
-                ctx.formula(rule, f'{title}: guard of the assertion == reference', fi, ea.cond(), eb.cond(), node=ea.node,
-                            construct=ea.text()[:80] + ' [assert guard]')
+        _match_groups(ctx, rule, title, fi, 'assertion', aa_, ab_,
+                      lambda e: [('condition', e.data['cond']), ('guard', e.cond())], txt)
     if 'deletes' in what:
-        da = [e for e in I.events if e.kind == 'delete' and e.func.short == fi.short]
+        da = [e for e in I.events if e.kind == 'delete' and e.func.short == own]
         db = [e for e in IR.events if e.kind == 'delete']
-        if len(da) != len(db):
-            ctx.ob(rule, f'{title}: same deletions as the reference', fi, False,
-                   {'code': [e.text() for e in da], 'reference': [e.text() for e in db]}, node=fi.node, construct='del statements')
-        else:
-            for ea, eb in zip(da, db):
-                ctx.formula(rule, f'{title}: deleted element == reference', fi, T.mk_tuple([ea.data['base'], lift(ea.data['key']) if isinstance(ea.data['key'], str) else ea.data['key']]),
-                            T.mk_tuple([eb.data['base'], lift(eb.data['key']) if isinstance(eb.data['key'], str) else eb.data['key']]),
-                            node=ea.node, construct=ea.text()[:80])
+        _match_groups(ctx, rule, title, fi, 'deletion', da, db,
+                      lambda e: [('object', e.data['base']), ('key', lift(e.data['key']) if isinstance(e.data['key'], str) else e.data['key'])],
+                      txt)
     if 'raises' in what:
-        ra = [e for e in I.events if e.kind == 'raise' and e.func.short == fi.short]
+        ra = [e for e in I.events if e.kind == 'raise' and e.func.short == own]
         rb = [e for e in IR.events if e.kind == 'raise']
-        if len(ra) != len(rb):
-            ctx.ob(rule, f'{title}: same rejecting paths (raise statements) as the reference', fi, False,
-                   {'code': [(e.text()[:60], pretty(e.cond())[:200]) for e in ra],
-                    'reference': [(e.text()[:60], pretty(e.cond())[:200]) for e in rb]}, node=fi.node, construct='raise paths')
-        else:
-            for ea, eb in zip(ra, rb):
-                ctx.formula(rule, f'{title}: condition of the rejecting path == reference', fi, ea.cond(), eb.cond(),
-                            node=ea.node, construct=ea.text()[:80] + ' [guard]')
+        _match_groups(ctx, rule, title, fi, 'rejecting path', ra, rb, lambda e: [('guard', e.cond())], txt)
     if 'substores' in what:
-        sa = [e for e in I.events if e.kind == 'store' and e.data.get('target') == 'sub' and e.func.short == fi.short]
+        sa = [e for e in I.events if e.kind == 'store' and e.data.get('target') == 'sub' and e.func.short == own]
         sb = [e for e in IR.events if e.kind == 'store' and e.data.get('target') == 'sub']
-        if len(sa) != len(sb):
-            ctx.ob(rule, f'{title}: same number of buffer stores as the reference', fi, False,
-                   {'code': [e.text() for e in sa], 'reference': [e.text() for e in sb]}, node=fi.node,
-                   construct='subscript stores')
-        else:
-            for ea, eb in zip(sa, sb):
-                ctx.formula(rule, f'{title}: index of buffer store == reference', fi, ea.data['key'], eb.data['key'],
-                            node=ea.node, construct=ea.text() + ' [index]')
-                ctx.formula(rule, f'{title}: value of buffer store == reference', fi, ea.data['value'], eb.data['value'],
-                            node=ea.node, construct=ea.text() + ' [value]')
-                ctx.formula(rule, f'{title}: condition of the buffer store == reference', fi, ea.cond(), eb.cond(),
-                            node=ea.node, construct=ea.text() + ' [guard]')
+        _match_groups(ctx, rule, title, fi, 'buffer store', sa, sb,
+                      lambda e: [('container', _root_base(e.data['base'])), ('index', e.data['key']), ('value', e.data['value']),
+                                 ('guard', e.cond())], txt)
     return (r, I), (rr, IR)
 
 
